@@ -234,6 +234,25 @@ def gen_tree(rnd: random.Random, max_nodes: int = 25, names=NAMES, big: int = 40
             else:
                 tgt = "nonexistent/" + rnd.choice(names)
             ents.append(["l", p, tgt])
+    if rnd.random() < 0.3:
+        # a link whose target passes through the link itself and is cancelled lexically by "..":
+        # realpath() reports a loop there and hands back an unresolved, merely normalised path
+        inside = [d for d in dirs if d == "root" or d.startswith("root/")]
+        d = rnd.choice(inside)
+        depth = d.count("/") + 1
+        g1, g2 = rnd.sample([n for n in names if n not in (UNDEC,)], 2)
+        if not any(e[1] in (d + "/" + g1, d + "/" + g2) for e in ents):
+            ents.append(["l", d + "/" + g1, rnd.choice(["./" + g1 + "/../" + g2, g1 + "/../" + g2, "../" + d.rsplit("/", 1)[-1] + "/" + g1 + "/../" + g2
+                                                         if depth >= 2 else g1 + "/../" + g2])])
+            k = rnd.random()
+            if k < 0.5:
+                ents.append(["l", d + "/" + g2, "../" * depth + rnd.choice(["out/secret", "root-evil/e", "out/sub", "root-evil"])])
+            elif k < 0.7:
+                ents.append(["f", d + "/" + g2, fid, True, 0])
+            elif k < 0.85:
+                ents.append(["d", d + "/" + g2])
+                ents.append(["l", d + "/" + g2 + "/index.gmi", "../" * (depth + 1) + "out/secret"])
+            # else: dangling
     return normalise(ents)
 
 
